@@ -214,6 +214,46 @@ def markSplit (bit : Nat) (flags : Array Nat) (split : List Nat) : Array Nat :=
 def outFlags (bit : Nat) (flags : Array Nat) (o : Out) : List Nat :=
   reorderCol (markSplit bit flags o.split) o.order
 
+/-! ### Node metadata (`split_disjoint_nodes` + `_reorder_nodes`)
+
+    extra_md = {}
+    try:
+        for u in split_nodes:
+            md = ts.node(u).metadata; md["unsplit_node_id"] = int(u)
+            extra_md[u] = tables.nodes.metadata_schema.validate_and_encode_row(md)
+    except (TypeError, tskit.MetadataValidationError):
+        logger.warning("Could not set 'unsplit_node_id' on node metadata")
+    # _reorder_nodes(node_table, order, extra_md_dict):
+    data = [node_table.metadata] + [bytes of v for v in extra_md_dict.values()]; md = np.concatenate(data)
+    if len(md) == 0: all output rows empty                      # shortcut: no byte anywhere, old or new
+    else: rows = unpack(old rows ++ new rows); out = [rows[d.get(i, i)] for i in order]   # d: key -> new row
+
+`enc u` is the result of decoding row `u`, adding the key and re-encoding with the table's schema
+(`none` = `TypeError` / `MetadataValidationError`); the codec itself is tskit's (a parameter here).  The
+`try` encloses the whole loop: the first failure ends it and the entries made so far are kept. -/
+
+/-- The loop that fills `extra_md` (an association list in insertion order). -/
+def extraGo {β : Type} (enc : Nat → Option β) : List Nat → List (Nat × β) → List (Nat × β)
+  | [], acc => acc
+  | u :: us, acc =>
+    match enc u with
+    | none => acc
+    | some b => extraGo enc us (acc ++ [(u, b)])
+
+def extraMd {β : Type} (enc : Nat → Option β) (split : List Nat) : List (Nat × β) :=
+  extraGo enc split []
+
+/-- `extra_md_dict.get(i)`. -/
+def lookupMd {β : Type} (extra : List (Nat × β)) (i : Nat) : Option β :=
+  (extra.find? (fun kv => kv.1 == i)).map (·.2)
+
+/-- The metadata column written by `_reorder_nodes`. `isEmpty b` = row `b` has no bytes, `empty` = the
+empty row. -/
+def outMetadata {β : Type} [Inhabited β] (isEmpty : β → Bool) (empty : β) (rows : Array β)
+    (order : List Nat) (extra : List (Nat × β)) : List β :=
+  if rows.toList.all isEmpty && extra.all (fun kv => isEmpty kv.2) then order.map (fun _ => empty)
+  else order.map (fun i => (lookupMd extra i).getD (aget rows i))
+
 /-! ### `_relabel_mutations_node` -/
 
 /-- An edge as seen by the sweep when it is inserted: left coordinate and the *new* child/parent. -/
